@@ -234,7 +234,11 @@ func arrayExecMerge(ar *Array, values []r.Element) (r.Element, error) {
 	result = append(result, ar.value...)
 	for _, v := range values {
 		varr := v.(*Array).value
-		result = append(result, varr...)
+		// store copies of the merged items (as 后增 / 前增 / 新增 do): the receiver never
+		// shares mutable items with its arguments - and can never contain itself
+		for _, item := range varr {
+			result = append(result, DuplicateValue(item))
+		}
 	}
 	// update new array
 	ar.value = result
